@@ -45,7 +45,7 @@ def generate(T, tier):
             w = G.width(mod, n)
             nbytes = (12 + w + 7) // 8 + 2
             name = "%s_n%d" % (mod, n)
-            unw = max(12, cap + 2, nbytes + 2)
+            unw = max(12, min(cap, 64) + 2, nbytes + 2)
             code.append(HARNESS % {"unw": unw, "stub": stub, "name": name, "mod": mod, "expr": G.any_expr(mod, n, "cand"), "bytes": nbytes,
                                    "number": m["number"], "strict": "true"})
             q = mod in QUICK and n == ns[-1]
@@ -57,8 +57,8 @@ def generate(T, tier):
         "harnesses": hs,
         "groups": {"main": {"features": ["c01"], "timeout_s": 2400},
                    "msm": {"features": ["c01"], "timeout_s": 3000},
-                   "big": {"features": ["c01"], "timeout_s": 3000},
-                   "stub": {"features": ["c01"], "timeout_s": 2400, "kani_args": ["-Z", "stubbing"]}},
+                   "big": {"features": ["c01"], "timeout_s": 3000, "unwindset": [["try_from_fn_erased", 392]]},
+                   "stub": {"features": ["c01"], "timeout_s": 2400, "unwindset": [["try_from_fn_erased", 392]], "kani_args": ["-Z", "stubbing"]}},
         "level": "model_checking",
         "functions": ["msgNNNN::{encode,decode} for all %d message types and every fragment/field codec they call" % len(T.messages)],
         "bounds": {"message_first": "m symbolic (ints full range, floats from boundary candidates), F = encode(m) accepted => decode(F) = Ok(m1) consuming exactly the written bits, encode(m1) == F bit for bit, decode(encode(m1)) == m1",
